@@ -293,3 +293,64 @@ def min_l1_flow(G, f, charged, scale, types, lam=0, bound=None, budget=400000):
     except TimeoutError:
         return None
     return best[0], best[1]
+# ---------------------------------------------------------------------------------------------
+# error models (C07 / C08).  Elements are edges (flow_attr_origin="edge") or nodes ("node"); a route
+# "uses" an element if it traverses the edge / visits the node (counted with multiplicity for walks).
+def _num(x, exact):
+    return F(x) if exact else float(x)
+
+
+def err_elements(G, attr, origin="edge", ignore=(), scaling=None):
+    """the non-ignored weighted elements with (flow value, scale): ignored = listed, scale 0, or
+    (node origin) without the attribute"""
+    scaling = scaling or {}
+    ign = set(ignore)
+    out = {}
+    items = G.edges(data=True) if origin == "edge" else G.nodes(data=True)
+    for it in items:
+        x = (it[0], it[1]) if origin == "edge" else it[0]
+        d = it[-1]
+        if x in ign or scaling.get(x, 1) == 0 or attr not in d:
+            continue
+        out[x] = (d[attr], scaling.get(x, 1))
+    return out
+
+
+def usage(routes, origin="edge"):
+    """per route: Counter element -> multiplicity"""
+    res = []
+    for r in routes:
+        res.append(collections.Counter(route_edges(r) if origin == "edge" else list(r)))
+    return res
+
+
+def abs_errors(G, attr, routes, weights, origin="edge", ignore=(), scaling=None, exact=True):
+    """element -> |f - sum_i w_i * mult_i| over the non-ignored weighted elements"""
+    el = err_elements(G, attr, origin, ignore, scaling)
+    us = usage(routes, origin)
+    out = {}
+    for x, (f, s) in el.items():
+        tot = sum((_num(w, exact) * u[x] for u, w in zip(us, weights)), _num(0, exact))
+        out[x] = abs(_num(f, exact) - tot)
+    return out
+
+
+def lae_objective(G, attr, routes, weights, origin="edge", ignore=(), scaling=None, exact=True):
+    el = err_elements(G, attr, origin, ignore, scaling)
+    errs = abs_errors(G, attr, routes, weights, origin, ignore, scaling, exact)
+    return sum((_num(el[x][1], exact) * errs[x] for x in el), _num(0, exact)), errs
+
+
+def mpe_feasible(G, attr, routes, weights, slacks, origin="edge", ignore=(), scaling=None, exact=True, tol=1e-6):
+    """C08: for every non-ignored element scale*|f - sum w| <= sum of the (scaled) slacks of the routes
+    through it (with multiplicity).  Returns None or a reason."""
+    el = err_elements(G, attr, origin, ignore, scaling)
+    errs = abs_errors(G, attr, routes, weights, origin, ignore, scaling, exact)
+    us = usage(routes, origin)
+    for x, (f, s) in el.items():
+        sl = sum((_num(z, exact) * u[x] for u, z in zip(us, slacks)), _num(0, exact))
+        lhs = _num(s, exact) * errs[x]
+        n = sum(1 for u in us if u[x]) + 1
+        if lhs > sl + (0 if exact else tol * n):
+            return f"element {x}: scale*|f - explained| = {lhs} > slack through it {sl}"
+    return None
